@@ -555,7 +555,8 @@ func runC12(c *core.Ctx) core.Meta {
 	})
 	// engine start hand-off: engineRunning set true only where it was found false under the mutex, and runEngine clears it
 	if fn := c.MustFunc("R12.6", driverPkg, "Driver.runAsync"); fn != nil {
-		g := core.BuildGraph(fn, 0, nil)
+		// helpers of the driver that take the decision are expanded at their call sites
+		g := core.BuildGraph(fn, 2, func(callee *ssa.Function) bool { return callee.Pkg == fn.Pkg })
 		for _, n := range g.Nodes {
 			if _, isGo := n.Instr.(*ssa.Go); isGo {
 				st6.Instances++
@@ -573,7 +574,14 @@ func runC12(c *core.Ctx) core.Meta {
 	if ra, re := c.MustFunc("R12.7", driverPkg, "Driver.runAsync"), c.MustFunc("R12.7", driverPkg, "Driver.runEngine"); ra != nil && re != nil {
 		c.MarkAnalysed(ra)
 		c.MarkAnalysed(re)
-		gra := core.BuildGraph(ra, 0, nil)
+		gra := core.BuildGraph(ra, 2, func(callee *ssa.Function) bool { return callee.Pkg == ra.Pkg })
+		lsCache := map[*ssa.Function]map[ssa.Instruction]map[lockKey]bool{}
+		lsOf := func(fn *ssa.Function) map[ssa.Instruction]map[lockKey]bool {
+			if _, ok := lsCache[fn]; !ok {
+				lsCache[fn] = locksets(fn)
+			}
+			return lsCache[fn]
+		}
 		// does runAsync skip starting the engine on engineRunning == true?
 		skips := false
 		var reqField string
@@ -588,13 +596,12 @@ func runC12(c *core.Ctx) core.Meta {
 			}
 			skips = true
 			// on the true edge, before looping back: a store of true into another Driver field, with the mutex held
-			ls := locksets(ra)
 			gra.Walk([]core.State{{N: n.Succs[0]}}, core.WalkOpts{ForwardOnly: true}, func(st core.State) {
 				if s, ok := st.N.Instr.(*ssa.Store); ok {
 					if wf := core.FieldOfAddr(s.Addr); wf != nil && core.ShortFieldID(wf) != "Driver.engineRunning" && strings.HasPrefix(core.ShortFieldID(wf), "Driver.") {
 						if b, isC := core.ConstBool(s.Val); isC && b {
 							held := false
-							for k := range ls[st.N.Instr] {
+							for k := range lsOf(st.N.Fn())[st.N.Instr] {
 								if k.field == "engineRunningMutex" {
 									held = true
 								}
@@ -650,6 +657,64 @@ func runC12(c *core.Ctx) core.Meta {
 				if !okLoop {
 					c.ReportAt("R12.7", re, re.Pos(), "rerun-request:not-served", "runEngine does not run the engine again when it finds the re-run request ("+reqField+") set")
 				}
+			}
+		}
+	}
+
+	// ---------------- R12.13 the engine hand-off is decided after the tick is scheduled ----------------
+	st13 := c.Rule("R12.13", "runAsync schedules the driver's tick (TickLater) before it either asks the running engine goroutine for one more run (the re-run request) or claims the engine for a new goroutine (engineRunning = true): within one turn of its loop, helpers expanded, no such store is reachable before the TickLater call. An engine goroutine that is leaving Engine.Run can consume a request raised earlier, run the still empty event queue, clear engineRunning and exit; the tick scheduled afterwards is never executed and DrainCommandQueue blocks forever", 2)
+	if ra := c.MustFunc("R12.13", driverPkg, "Driver.runAsync"); ra != nil {
+		g := core.BuildGraph(ra, 2, func(callee *ssa.Function) bool { return callee.Pkg == ra.Pkg })
+		isTick := func(n *core.Node) bool {
+			cc := core.CallOf(n.Instr)
+			if cc == nil {
+				return false
+			}
+			if cc.IsInvoke() {
+				return cc.Method.Name() == "TickLater" || cc.Method.Name() == "TickNow"
+			}
+			cal := cc.StaticCallee()
+			return cal != nil && (cal.Name() == "TickLater" || cal.Name() == "TickNow")
+		}
+		ticks := 0
+		for _, n := range g.Nodes {
+			if isTick(n) {
+				ticks++
+			}
+		}
+		claims := map[*core.Node]string{}
+		for _, n := range g.Nodes {
+			s, ok := n.Instr.(*ssa.Store)
+			if !ok {
+				continue
+			}
+			f := core.FieldOfAddr(s.Addr)
+			if f == nil {
+				continue
+			}
+			id := core.ShortFieldID(f)
+			if id != "Driver.engineRunning" && id != "Driver.engineRerun" {
+				continue
+			}
+			if b, isC := core.ConstBool(s.Val); isC && b {
+				claims[n] = id
+			}
+		}
+		early := map[*core.Node]bool{}
+		g.Walk([]core.State{{N: g.Entry}}, core.WalkOpts{ForwardOnly: true, Stop: isTick}, func(st core.State) {
+			if _, ok := claims[st.N]; ok {
+				early[st.N] = true
+			}
+		})
+		if ticks == 0 {
+			c.ReportAt("R12.13", ra, ra.Pos(), "handoff:no-tick", "runAsync does not schedule the driver's tick for an enqueue signal")
+		}
+		for n, id := range claims {
+			st13.Instances++
+			st13.Ob(!early[n])
+			st13.Sample("runAsync: %s = true only after the tick is scheduled: %v", id, !early[n])
+			if early[n] {
+				c.ReportAt("R12.13", n.Fn(), n.Instr.Pos(), "handoff:before-tick:"+id, id+" is set before the tick for the enqueue signal is scheduled: an engine goroutine that is on its way out of Engine.Run can serve the request on an empty event queue, clear engineRunning and exit before TickLater runs; the tick stays in an engine nobody runs and DrainCommandQueue / MemCopy / LaunchKernel never return")
 			}
 		}
 	}
